@@ -96,7 +96,7 @@ def gen_stub(name, sig, ret, text):
     if not cl: raise Abort(f'stub={name}: no contract clauses')
     body = []
     void = ret.strip() == 'void'
-    body.append('  void* y_sf_seen[8]; unsigned y_sf_n = 0;')
+    body.append('  void* y_sf_seen[16]; unsigned y_sf_n = 0;')
     k = 0
     for kind, c in cl:
         if kind != 'requires': continue
@@ -181,8 +181,8 @@ static inline _Bool y_sf_chk(void** seen, unsigned* n, void* p, uint64_t sz)
 {
   if (!__CPROVER_rw_ok(p, sz)) return 0;
 #define Y_SF_SEEN(i) if ((i) < *n && __CPROVER_same_object(seen[i], p)) return 0;
-  Y_SF_SEEN(0) Y_SF_SEEN(1) Y_SF_SEEN(2) Y_SF_SEEN(3) Y_SF_SEEN(4) Y_SF_SEEN(5) Y_SF_SEEN(6) Y_SF_SEEN(7)
-  __CPROVER_assert(*n < 8, "ystubgen: at most 8 is_fresh terms per contract");
+  Y_SF_SEEN(0) Y_SF_SEEN(1) Y_SF_SEEN(2) Y_SF_SEEN(3) Y_SF_SEEN(4) Y_SF_SEEN(5) Y_SF_SEEN(6) Y_SF_SEEN(7) Y_SF_SEEN(8) Y_SF_SEEN(9) Y_SF_SEEN(10) Y_SF_SEEN(11) Y_SF_SEEN(12) Y_SF_SEEN(13) Y_SF_SEEN(14) Y_SF_SEEN(15)
+  __CPROVER_assert(*n < 16, "ystubgen: at most 16 is_fresh terms per contract");
   seen[*n] = p; ++*n;
   return 1;
 }
